@@ -27,7 +27,7 @@ theorem Recv.set_ne {fs : List String} {e env' : Env} (h : Recv fs e env') (g : 
 
 /-- "WordCount tells which", from the static check: behind fixed-width slots of `n` bytes in all, the parameter
     block has the word count Unmarshal tests for iff the optional field is on the wire -/
-theorem optTrailing_wc {C : Codecs} {T : String → Prop} (andx : Bool) (env : Env) :
+theorem optTrailing_wc {C : Codecs} {T : String → Prop} (hC : LawfulCodecs C T) (andx : Bool) (env : Env) :
     ∀ (l : List Slot) (n : Nat), optTrailing andx l n = true → (∀ sl ∈ l, SlotFit C T env sl) →
       ∀ b w e f k, Slot.opt b w e f (some k) ∈ l → ∀ x, env.get f = some (.n x) →
         (andxWords andx + (n + (layoutBytes C env l).length + 1) / 2 = k ↔ x ≠ 0) := by
@@ -84,6 +84,12 @@ theorem optTrailing_wc {C : Codecs} {T : String → Prop} (andx : Bool) (env : E
             exact hot.2
           · simp only [hx0, if_false, intBytes_length, ne_eq, not_false_eq_true, iff_true]
             exact hot.1
+    | optInts b' w' e' f' n' wc' =>
+      rcases List.mem_cons.mp hmem with h | h
+      · cases h
+      · cases r with
+        | nil => cases h
+        | cons _ _ => simp [optTrailing] at hot
     | bytes b' g len =>
       simp only [optTrailing, List.all_eq_true] at hot
       rcases List.mem_cons.mp hmem with h | h
@@ -95,10 +101,135 @@ theorem optTrailing_wc {C : Codecs} {T : String → Prop} (andx : Bool) (env : E
       · cases h
       · have := hot _ h; simp at this
     | sub b' g t win =>
+      simp only [optTrailing] at hot
+      cases hfs : fixedSize t with
+      | none =>
+        rw [hfs] at hot
+        simp only [List.all_eq_true] at hot
+        rcases List.mem_cons.mp hmem with h | h
+        · cases h
+        · have := hot _ h; simp at this
+      | some sz =>
+        rw [hfs] at hot
+        obtain ⟨v, bs, hget, henc, hT⟩ := hfit (.sub b' g t win) (List.mem_cons_self ..)
+        have hlen := hC.size t sz v bs v hT hfs henc
+        have hm : Slot.opt b w e f (some k) ∈ r := by
+          rcases List.mem_cons.mp hmem with h | h
+          · cases h
+          · exact h
+        have := ih (n + sz) hot hfit' b w e f k hm x hx
+        rw [layoutBytes_cons]
+        simp only [slotBytes, hget, henc, List.length_append, hlen]
+        rw [← this]
+        constructor <;> intro h <;> rw [← h] <;> congr 2 <;> omega
+    | ints b' w' e' g cnt =>
       simp only [optTrailing, List.all_eq_true] at hot
       rcases List.mem_cons.mp hmem with h | h
       · cases h
       · have := hot _ h; simp at this
+    | subs b' g t cnt size =>
+      simp only [optTrailing, List.all_eq_true] at hot
+      rcases List.mem_cons.mp hmem with h | h
+      · cases h
+      · have := hot _ h; simp at this
+
+/-- the same for an optional array: the parameter block has the word count Unmarshal tests for iff some element
+    of the array is non-zero (the array has the `n` elements Unmarshal reads) -/
+theorem optTrailing_wcArr {C : Codecs} {T : String → Prop} (hC : LawfulCodecs C T) (andx : Bool) (env : Env) :
+    ∀ (l : List Slot) (off : Nat), optTrailing andx l off = true → (∀ sl ∈ l, SlotFit C T env sl) →
+      ∀ b w e f n k, Slot.optInts b w e f n (some k) ∈ l → ∀ xs, env.get f = some (.ns xs) → xs.length = n →
+        (andxWords andx + (off + (layoutBytes C env l).length + 1) / 2 = k ↔ xs.any (· != 0) = true) := by
+  intro l
+  induction l with
+  | nil => intro off _ _ b w e f n k hmem; cases hmem
+  | cons sl r ih =>
+    intro off hot hfit b w e f n k hmem xs hx hlen
+    have hfit' : ∀ sl ∈ r, SlotFit C T env sl := fun s hs => hfit s (List.mem_cons_of_mem _ hs)
+    cases sl with
+    | int b' w' e' g =>
+      simp only [optTrailing] at hot
+      obtain ⟨y, hy, _⟩ := hfit (.int b' w' e' g) (List.mem_cons_self ..)
+      have hm : Slot.optInts b w e f n (some k) ∈ r := by
+        rcases List.mem_cons.mp hmem with h | h
+        · cases h
+        · exact h
+      have := ih (off + w') hot hfit' b w e f n k hm xs hx hlen
+      rw [layoutBytes_cons]
+      simp only [slotBytes, hy, List.length_append, intBytes_length]
+      rw [← this]
+      constructor <;> intro h <;> rw [← h] <;> congr 2 <;> omega
+    | u8 b' g =>
+      simp only [optTrailing] at hot
+      obtain ⟨y, hy, _⟩ := hfit (.u8 b' g) (List.mem_cons_self ..)
+      have hm : Slot.optInts b w e f n (some k) ∈ r := by
+        rcases List.mem_cons.mp hmem with h | h
+        · cases h
+        · exact h
+      have := ih (off + 1) hot hfit' b w e f n k hm xs hx hlen
+      rw [layoutBytes_cons]
+      simp only [slotBytes, hy, List.length_append, List.length_cons, List.length_nil]
+      rw [← this]
+      constructor <;> intro h <;> rw [← h] <;> congr 2 <;> omega
+    | opt b' w' e' f' wc' =>
+      rcases List.mem_cons.mp hmem with h | h
+      · cases h
+      · cases r with
+        | nil => cases h
+        | cons _ _ => simp [optTrailing] at hot
+    | optInts b' w' e' f' n' wc' =>
+      cases r with
+      | cons _ _ => simp [optTrailing] at hot
+      | nil =>
+        cases wc' with
+        | none => simp [optTrailing] at hot
+        | some k' =>
+          simp only [optTrailing, Bool.and_eq_true, decide_eq_true_eq] at hot
+          have heq : Slot.optInts b w e f n (some k) = Slot.optInts b' w' e' f' n' (some k') := by
+            rcases List.mem_cons.mp hmem with h | h
+            · exact h
+            · cases h
+          injection heq with h1 h2 h3 h4 h5 h6
+          injection h6 with h6
+          subst h1 h2 h3 h4 h5 h6
+          rw [layoutBytes_cons, layoutBytes_nil, List.append_nil]
+          simp only [slotBytes, hx]
+          by_cases hany : xs.any (· != 0) = true
+          · simp only [hany, if_true, flatMap_intBytes_length, hlen, iff_true]
+            exact hot.1
+          · simp only [hany, Bool.false_eq_true, if_false, List.length_nil, Nat.add_zero, iff_false]
+            exact hot.2
+    | bytes b' g len =>
+      simp only [optTrailing, List.all_eq_true] at hot
+      rcases List.mem_cons.mp hmem with h | h
+      · cases h
+      · have := hot _ h; simp at this
+    | arr b' g =>
+      simp only [optTrailing, List.all_eq_true] at hot
+      rcases List.mem_cons.mp hmem with h | h
+      · cases h
+      · have := hot _ h; simp at this
+    | sub b' g t win =>
+      simp only [optTrailing] at hot
+      cases hfs : fixedSize t with
+      | none =>
+        rw [hfs] at hot
+        simp only [List.all_eq_true] at hot
+        rcases List.mem_cons.mp hmem with h | h
+        · cases h
+        · have := hot _ h; simp at this
+      | some sz =>
+        rw [hfs] at hot
+        obtain ⟨v, bs, hget, henc, hT⟩ := hfit (.sub b' g t win) (List.mem_cons_self ..)
+        have hlen' := hC.size t sz v bs v hT hfs henc
+        have hm : Slot.optInts b w e f n (some k) ∈ r := by
+          rcases List.mem_cons.mp hmem with h | h
+          · cases h
+          · exact h
+        have := ih (off + sz) hot hfit' b w e f n k hm xs hx hlen
+        rw [layoutBytes_cons]
+        simp only [slotBytes, hget, henc, List.length_append, hlen']
+        rw [← this]
+        constructor <;> intro h <;> rw [← h] <;> congr 2 <;> omega
     | ints b' w' e' g cnt =>
       simp only [optTrailing, List.all_eq_true] at hot
       rcases List.mem_cons.mp hmem with h | h
@@ -125,7 +256,7 @@ structure MirrorFactsL (c : Cmd) (body : List UStmt) (m u : List Slot) : Prop wh
   covered : ∀ f ∈ c.fields.map (·.1), f ∈ u.map Slot.field
   range : ∀ f ∈ recvFields body, f ≠ andxField ∧ c.marshal.all (fun s => s.modifies != some f) = true
   optP : optTrailing c.isAndX (u.filter (·.blk == .P)) 0 = true
-  optD : ∀ sl ∈ u.filter (·.blk == .D), (match sl with | .opt .. => false | _ => true) = true
+  optD : ∀ sl ∈ u.filter (·.blk == .D), (match sl with | .opt .. | .optInts .. => false | _ => true) = true
 
 theorem mirror_factsL {c : Cmd} (hm : MirrorLoops c = true) : ∃ body m u, MirrorFactsL c body m u := by
   unfold MirrorLoops at hm
@@ -245,19 +376,33 @@ theorem mirror_loops_roundtrip_full {C : Codecs} {T : String → Prop} (hC : Law
         exact hsz0.set_ne andxField _ (fun p hp => (F.range p hp).1)
   obtain ⟨s1, h1P, h1D, h1o, hgo, hrelB, hag1, hseenA, hsz1, hwc1, hpad1⟩ := hgo
   have hwc : WcTells sM.env s1.wordCount u := by
-    intro b w e f k hmem x hx
-    have hbP : b = .P := by
-      cases b with
-      | P => rfl
-      | D =>
-        have := F.optD (.opt .D w e f (some k)) (List.mem_filter.mpr ⟨hmem, by simp [Slot.blk]⟩)
-        simp at this
-    subst hbP
-    have := optTrailing_wc (C := C) (T := T) c.isAndX sM.env (u.filter (·.blk == .P)) 0 F.optP
-      (fun sl hsl => hfitU sl (List.mem_filter.mp hsl).1) .P w e f k
-      (List.mem_filter.mpr ⟨hmem, by simp [Slot.blk]⟩) x hx
-    rw [hwc1, wordCountOf, hP, hbP']
-    simpa using this
+    refine ⟨?_, ?_⟩
+    · intro b w e f k hmem x hx
+      have hbP : b = .P := by
+        cases b with
+        | P => rfl
+        | D =>
+          have := F.optD (.opt .D w e f (some k)) (List.mem_filter.mpr ⟨hmem, by simp [Slot.blk]⟩)
+          simp at this
+      subst hbP
+      have := optTrailing_wc (C := C) (T := T) hC c.isAndX sM.env (u.filter (·.blk == .P)) 0 F.optP
+        (fun sl hsl => hfitU sl (List.mem_filter.mp hsl).1) .P w e f k
+        (List.mem_filter.mpr ⟨hmem, by simp [Slot.blk]⟩) x hx
+      rw [hwc1, wordCountOf, hP, hbP']
+      simpa using this
+    · intro b w e f n k hmem xs hx hlen
+      have hbP : b = .P := by
+        cases b with
+        | P => rfl
+        | D =>
+          have := F.optD (.optInts .D w e f n (some k)) (List.mem_filter.mpr ⟨hmem, by simp [Slot.blk]⟩)
+          simp at this
+      subst hbP
+      have := optTrailing_wcArr (C := C) (T := T) hC c.isAndX sM.env (u.filter (·.blk == .P)) 0 F.optP
+        (fun sl hsl => hfitU sl (List.mem_filter.mp hsl).1) .P w e f n k
+        (List.mem_filter.mpr ⟨hmem, by simp [Slot.blk]⟩) xs hx hlen
+      rw [hwc1, wordCountOf, hP, hbP']
+      simpa using this
   have hinv : Inv C sM.env {} s1.P s1.D s1.offset u := by
     rw [h1P, h1D, h1o]
     refine ⟨?_, ?_, fun _ => rfl⟩
